@@ -155,6 +155,42 @@ func runC14(c *Ctx) {
 					guarded = true
 				}
 			}
+			if !guarded && cfn.Parent() != nil && cfn.Parent().Parent() == nil {
+				// the call sits in a local closure that its function only calls (never hands out):
+				// it is as guarded as every call of the closure is
+				par := cfn.Parent()
+				sites, escapes := 0, false
+				allGuarded := true
+				for _, b := range par.Blocks {
+					for _, in := range b.Instrs {
+						if cc, ok := in.(ssa.CallInstruction); ok && cc.Common().StaticCallee() == cfn {
+							if _, isDefer := in.(*ssa.Defer); isDefer {
+								escapes = true
+							}
+							if _, isGo := in.(*ssa.Go); isGo {
+								escapes = true
+							}
+							sites++
+							if !c.Try(par, cc, []Clause{{okCheck}}, nil) && !guardedByPriorLoop(par, cc, okCheck) {
+								allGuarded = false
+							}
+							continue
+						}
+						if mc, ok := in.(*ssa.MakeClosure); ok && mc.Fn == ssa.Value(cfn) && mc.Referrers() != nil {
+							for _, r := range *mc.Referrers() {
+								if rc, isCall := r.(ssa.CallInstruction); !isCall || rc.Common().Value != ssa.Value(mc) {
+									if _, dbg := r.(*ssa.DebugRef); !dbg {
+										escapes = true
+									}
+								}
+							}
+						}
+					}
+				}
+				if sites > 0 && !escapes && allGuarded {
+					guarded = true
+				}
+			}
 			if !guarded {
 				work = append(work, need{top(cfn), n.chain + " <- " + SSAFuncName(n.fn)})
 			}
@@ -309,6 +345,70 @@ func runC14(c *Ctx) {
 			snapLoop = rl
 		}
 	}
+	if taskLoop != nil && snapLoop == nil {
+		// the comparison of the affected snaps with the requested set as a helper:
+		// if snap, found := firstSnapIn(snaps, snapMap); found { return conflict }
+		for _, b := range many.Blocks {
+			for _, in := range b.Instrs {
+				cc, ok := in.(ssa.CallInstruction)
+				if !ok {
+					continue
+				}
+				h := cc.Common().StaticCallee()
+				if h == nil || h.Pkg != many.Pkg || len(h.Blocks) == 0 {
+					continue
+				}
+				ai := -1
+				for j, a := range cc.Common().Args {
+					if VRes(0, ToFn(affected))(a) {
+						ai = j
+					}
+				}
+				bi := h.Signature.Results().Len() - 1
+				if ai < 0 || bi < 0 {
+					continue
+				}
+				hl := LoopsOver(h, VParam(h, ai))
+				if len(hl) != 1 {
+					continue
+				}
+				c.touch(h)
+				hloop := hl[0]
+				c.LatchGated("overlord/snapstate.CheckChangeConflictMany#snap-compare", hloop, []Clause{{Atom{Name: "!snapMap[snap]", Match: func(cd Cond) Pol {
+					return cd.BoolIs(func(v ssa.Value) bool {
+						lk, ok := Strip(v).(*ssa.Lookup)
+						return ok && VIs(hloop.Elem)(lk.Index)
+					}).Flip()
+				}}}})
+				nf := 0
+				for _, lf := range ReturnLeaves(h, bi) {
+					if bv, isC := ConstBool(lf.Val); isC && !bv {
+						nf++
+						c.ThroughLoop(fmt.Sprintf("overlord/snapstate.CheckChangeConflictMany#none-found-only-after-all-compared#%d", nf), hloop, lf)
+					} else if !isC {
+						c.Undecided("overlord/snapstate.CheckChangeConflictMany#helper-verdict", lf.Pos(), "the helper returns a computed value")
+					}
+				}
+				irrelevant := TrueRes("isIrrelevantChange(chg)", true, 0, ToFn(P.FuncObj("overlord/snapstate.isIrrelevantChange")))
+				only := func(ci ssa.CallInstruction) bool { return ci == cc }
+				noneFound := TrueRes("!found", false, bi, only)
+				gate := AtomEdges(irrelevant, noneFound)
+				q := ReachQ{Fn: many, From: &Loc{taskLoop.Body, -1},
+					CutEdge:  func(b *ssa.BasicBlock, s int) bool { return gate(b, s) || b.Succs[s] == taskLoop.Done },
+					SinkEdge: func(b *ssa.BasicBlock, s int) bool { return b.Succs[s] == taskLoop.Header }}
+				r := q.Run()
+				c.Check(!r.Found && nf > 0, "overlord/snapstate.CheckChangeConflictMany#advance", taskLoop.Body.Instrs[0].Pos(), "a task is passed over only if its change is irrelevant or every affected snap was compared", "a task of a relevant change can be passed over without comparing its affected snaps: "+P.PathString(r.Path))
+				for i, lf := range nilLeaves(many, 0) {
+					c.ThroughLoop(fmt.Sprintf("overlord/snapstate.CheckChangeConflictMany#nil-after-loop#%d", i+1), taskLoop, lf)
+				}
+				for _, ac := range CallSites(many, affected) {
+					c.Check(VIs(taskLoop.Elem)(ac.Common().Args[0]), "overlord/snapstate.CheckChangeConflictMany#affected-of-task", ac.Pos(), "SnapsAffectedByTask(task) of the loop's task", "SnapsAffectedByTask is not asked about the task being examined")
+				}
+				snapLoop = hloop
+				goto manyDone
+			}
+		}
+	}
 	if taskLoop == nil || snapLoop == nil {
 		c.Undecided("overlord/snapstate.CheckChangeConflictMany#loops", many.Pos(), "loops over st.Tasks() / SnapsAffectedByTask(task) not found")
 	} else {
@@ -338,6 +438,7 @@ func runC14(c *Ctx) {
 		}
 	}
 
+manyDone:
 	// ---- R5
 	c.Rule("C14-R5", "G", "checkChangeConflictIgnoringOneChange: nil <= ok(CheckChangeConflictMany) ∧ (snapst==nil | reflect.DeepEqual(snapst, &current))", 2)
 	ign := P.Func("overlord/snapstate.checkChangeConflictIgnoringOneChange")
